@@ -42,7 +42,7 @@ def main():
     shims = [sut.shim_obj(s, extra=spec.get('shim_flags', {}).get(s, ())) for s in spec.get('shims', [])]
     shims += [sut.repo_obj(s) for s in spec.get('repo_srcs', [])]
     exe = build.link_worker(sut, prop.lower(), drv, shims, with_lib=spec.get('with_lib', True), libs=spec.get('libs', ()))
-    txt = open(path).read()
+    txt = open(path, newline='').read()
     try:
         txt = json.loads(txt)['case']
     except Exception:
@@ -74,7 +74,7 @@ def main():
         n //= 2
     while sweep(1):
         pass
-    open(out, 'w').write(''.join(ops))
+    open(out, 'w', newline='').write(''.join(ops))
     os.unlink(tmp)
     print('%d ops -> %s' % (len(ops), out))
     return 0
